@@ -523,7 +523,7 @@ impl Monitor for C07 {
     fn streams(&self, tier: Tier, budget: f64) -> Vec<Stream> {
         let shapes = all_shapes(6).len() as u64;
         let n = match tier {
-            Tier::Quick => 15_000,
+            Tier::Quick => 150_000,
             Tier::Thorough => 1_000_000,
         };
         vec![
